@@ -193,8 +193,18 @@ def render_extracted(t):
 
 
 def extract(ctx):
-    text = render_extracted(extract_tables())
+    """Regenerate lean/I2N/Extracted/Pool.lean.  Fails closed: when a literal is no longer where it was, the proofs
+    count as broken for this run (a proof problem can never end in exit 0) and the correspondence still runs against the
+    last extracted tables, so that a concrete failing input is looked for."""
     path = os.path.join(vlib.LEAN, "I2N", "Extracted", "Pool.lean")
+    try:
+        text = render_extracted(extract_tables())
+    except ExtractError as e:
+        ctx.proof_problems.append(f"extraction of the scope literals from {POOL_PY} failed (theorems are about stale "
+                                  f"literals): {e}")
+        if not os.path.exists(path):
+            raise
+        return
     os.makedirs(os.path.dirname(path), exist_ok=True)
     old = open(path).read() if os.path.exists(path) else None
     if old != text:
@@ -468,6 +478,12 @@ def oracle_state(ctx, c, res, contacts):
                 f"permitted source")
         if any(call != "show" for call, _ in pool):
             bad("foreign-call", "listing made a transport call other than show")
+        if permitted:
+            # observation, not part of the property: the intersection over the mirrors restarts when it runs empty, so a
+            # state can be listed although the closest permitted source (the only one `get` asks) lacks it
+            best = max(permitted, key=lambda l: closeness(c, l))
+            if any(n not in c["mirrors"].get(best, []) and not ("own" in scopes and n in c["cache"]) for n in names):
+                ctx.count("observation.show-lists-state-missing-in-closest-source")
     elif op == "get":
         if res != "ok":
             bad("unexpected-error", "fetching failed")
@@ -759,6 +775,15 @@ def odd_scope_case(rng):
 CHUNK = 25000
 
 
+def _known_keys():
+    return {f["key"] for f in vlib.known_findings().get("findings", []) if f.get("property") == PROP}
+
+
+def _new_violations(ctx):
+    known = _known_keys()
+    return [v for v in ctx.violations if v["key"] not in known]
+
+
 def _run_stream(ctx, gen, impl, **kw):
     buf = []
     for c in gen:
@@ -791,8 +816,11 @@ def correspondence(ctx, impl=None):
         # the property's quantifier, exhaustively: 16 scope subsets × all lists of <= 3 sources × placements × validity
         if thorough:
             _run_stream(ctx, exhaustive_state(BASE_KINDS + EXTRA_KINDS, 3), impl)
-            ctx.extra["exhaustive"] = ("16 pool_scope subsets x all lists of <=3 sources from 9 source kinds x all placements "
-                                       "of the state x cache validity x {show,get,set,unset}; root backend: whole space")
+            _run_stream(ctx, (c for locs in lists_upto(BASE_KINDS, 4) if len(locs) == 4 for sc in scope_subsets()
+                              for c in state_cases_for(locs, sc)), impl)
+            ctx.extra["exhaustive"] = ("16 pool_scope subsets x all lists of <=3 sources from 9 source kinds (and all lists "
+                                       "of 4 from the 5 kinds of the property) x all placements of the state x cache "
+                                       "validity x {show,get,set,unset}; root backend: whole space")
         else:
             _run_stream(ctx, exhaustive_state(BASE_KINDS, 3), impl)
             _run_stream(ctx, exhaustive_state(BASE_KINDS + EXTRA_KINDS, 2), impl)
@@ -800,12 +828,15 @@ def correspondence(ctx, impl=None):
                                        "property (and all lists of <=2 from 9 kinds incl. trap kinds) x all placements of the "
                                        "state x cache validity x {show,get,set,unset}; root backend: whole space")
             trap3 = [l for l in lists_upto(BASE_KINDS + EXTRA_KINDS, 3) if len(l) == 3 and any(k in EXTRA_KINDS for k in l)]
-            sample = rng.sample(trap3, 60)
+            sample = rng.sample(trap3, 150)
             _run_stream(ctx, (c for locs in sample for sc in scope_subsets() for c in state_cases_for(locs, sc)), impl)
         n_rand, n_mal = (60000, 4000) if thorough else (6000, 600)
         _run_stream(ctx, (random_state_case(rng) for _ in range(n_rand)), impl)
         _run_stream(ctx, (malformed_state_case(rng) for _ in range(n_mal)), impl)
         _run_stream(ctx, (odd_scope_case(rng) for _ in range(n_mal)), impl)
+        # run.py searches only when no violation at all was seen; a listed (known) finding must not mask a new break
+        if (ctx.disagreements or ctx.proof_problems) and ctx.violations and not _new_violations(ctx):
+            search(ctx, "proof" if ctx.proof_problems else "correspondence", impl)
     finally:
         _cleanup()
 
@@ -824,14 +855,14 @@ def search(ctx, reason, impl=None):
                 if len(buf) >= 5000:
                     run_cases(ctx, buf, impl, model=False, record=False)
                     buf = []
-                    if ctx.violations:
+                    if _new_violations(ctx):
                         break
-            if buf and not ctx.violations:
+            if buf and not _new_violations(ctx):
                 run_cases(ctx, buf, impl, model=False, record=False)
-            if ctx.violations:
+            if _new_violations(ctx):
                 break
-        if ctx.violations:
-            v = ctx.violations[0]
+        if _new_violations(ctx):
+            v = _new_violations(ctx)[0]
             v["case"] = shrink_case(v["case"], v["key"], impl)
     finally:
         _cleanup()
